@@ -80,14 +80,14 @@ func (ex *Exec) loopCut(st *State, h *ssa.BasicBlock, prev *ssa.BasicBlock, k co
 	if backEdge {
 		phase = "preserved"
 	}
-	ex.checkInvariants(arrive, invs, ord, phase)
+	ex.checkInvariants(arrive, invs, ord, phase, h)
 	if backEdge {
 		return true
 	}
 	// first arrival: havoc what the loop may assign
 	ex.havocLoop(st, h)
 	// assume invariants
-	ctx := &EvalCtx{ex: ex, pre: ex.topPre, post: st, vars: ex.topVars, bound: map[string]Value{}, fn: fn}
+	ctx := &EvalCtx{ex: ex, pre: ex.topPre, post: st, vars: ex.topVars, bound: map[string]Value{}, fn: fn, loopHeader: h}
 	for _, cl := range invs {
 		t, err := ctx.EvalBool(cl.E)
 		if err != nil {
@@ -115,12 +115,13 @@ func (ex *Exec) loopCut(st *State, h *ssa.BasicBlock, prev *ssa.BasicBlock, k co
 	if start == 0 {
 		ex.resumeHeader = h
 	}
+	st.curLoop = h
 	ex.runBlock(st, h, prev, start, k)
 	return true
 }
 
-func (ex *Exec) checkInvariants(st *State, invs []*Clause, ord int, phase string) {
-	ctx := &EvalCtx{ex: ex, pre: ex.topPre, post: st, vars: ex.topVars, bound: map[string]Value{}, fn: st.top().Fn}
+func (ex *Exec) checkInvariants(st *State, invs []*Clause, ord int, phase string, h *ssa.BasicBlock) {
+	ctx := &EvalCtx{ex: ex, pre: ex.topPre, post: st, vars: ex.topVars, bound: map[string]Value{}, fn: st.top().Fn, loopHeader: h}
 	for _, cl := range invs {
 		if !relevant(cl, ex.prop) {
 			continue
